@@ -54,6 +54,9 @@ type lifePlan struct {
 	PubDecFaults []int `json:"publisher_decorator_fails_at_calls,omitempty"`
 	DecFirst     bool  `json:"flaky_decorator_innermost,omitempty"`
 
+	// 'router+refused': calls that fail as documented (or are documented no-ops) and must change nothing (refused.go)
+	Refused []*refusedCall `json:"refused_calls,omitempty"`
+
 	// observed
 	RunFailed      bool     `json:"run_returned_startup_error,omitempty"`
 	FailedAttempts int      `json:"failed_startup_attempts,omitempty"`
@@ -86,6 +89,9 @@ func genLifecycle(r *vlib.Rand, id string, cfg *config) {
 	lp := &lifePlan{Waves: r.Range(0, 2)}
 	cfg.Life = lp
 	cfg.Reg = []string{regRouter, regHandler}[r.Intn(2)]
+	if cfg.Variant == "refused" && r.Chance(0.4) {
+		cfg.Reg = regHandler // 70% handler-level: the registration a refused call could touch
+	}
 	cfg.Concurrent = r.Bool()
 
 	used := map[string]bool{}
@@ -312,6 +318,8 @@ func runLifecycle(res *vlib.Result, w *world, pq message.HandlerMiddleware, cfg 
 	outPubs := make([]*vlib.Pub, n)
 	handles := make([]*message.Handler, n)
 	sps := make([]*vlib.Subscription, n)
+	live := make([]bool, n)    // registered and not (awaited as) stopped
+	stopped := make([]bool, n) // Stopped() of the current registration was seen closed
 
 	newSub := func(name string) *vlib.Sub {
 		s := &vlib.Sub{Name: name}
@@ -373,6 +381,7 @@ func runLifecycle(res *vlib.Result, w *world, pq message.HandlerMiddleware, cfg 
 			h.AddMiddleware(own...)
 		}
 		handles[i] = h
+		live[i], stopped[i] = true, false
 		trace("register #%d %q wave %d (again=%v)", i, hc.Name, hc.Life.Wave, again)
 	}
 
@@ -380,6 +389,9 @@ func runLifecycle(res *vlib.Result, w *world, pq message.HandlerMiddleware, cfg 
 	defer cancel()
 	runDone := make(chan struct{})
 	var runErr error
+	runCalled := false
+	rx := &refuseEnv{router: router, ctx: ctx, cfg: cfg, w: w, live: live, stopped: stopped, handles: handles, msubs: msubs, trace: trace}
+	refuse := func(wave int, phase string) bool { return len(lp.Refused) == 0 || rx.at(res, wave, phase) }
 	closeRouter := func() {
 		closed := make(chan struct{})
 		go func() {
@@ -390,12 +402,15 @@ func runLifecycle(res *vlib.Result, w *world, pq message.HandlerMiddleware, cfg 
 			res.Inconclusive("Router.Close did not return (%v)", oc)
 			return
 		}
+		if !runCalled {
+			return
+		}
 		if oc, _ := vlib.WaitClosed(runDone, vlib.WD); oc != vlib.Done {
 			res.Inconclusive("Router.Run did not return after Close (%v)", oc)
 		}
 	}
 	// runHandlers repeats RunHandlers until it returns nil; every failure must be one of the scripted faults
-	runHandlers := func() bool {
+	runHandlers := func(wave int) bool {
 		for attempt := 0; ; attempt++ {
 			var err error
 			done := make(chan struct{})
@@ -417,6 +432,9 @@ func runLifecycle(res *vlib.Result, w *world, pq message.HandlerMiddleware, cfg 
 			fmu.Unlock()
 			if attempt >= totalFaults {
 				res.Inconclusive("RunHandlers still fails after all scripted start-up faults were consumed: %v", err)
+				return false
+			}
+			if !refuse(wave, phRetry) {
 				return false
 			}
 		}
@@ -509,6 +527,7 @@ func runLifecycle(res *vlib.Result, w *world, pq message.HandlerMiddleware, cfg 
 				res.Inconclusive("handler #%d %q did not stop after %s (%v)", i, hc.Name, hc.Life.StopHow, oc)
 				return false
 			}
+			live[i], stopped[i] = false, true
 			trace("stopped #%d %q by %s after wave %d", i, hc.Name, hc.Life.StopHow, wave)
 		}
 		return true
@@ -521,6 +540,10 @@ func runLifecycle(res *vlib.Result, w *world, pq message.HandlerMiddleware, cfg 
 				register(i, false)
 			}
 		}
+		if !refuse(0, phRegistered) {
+			return
+		}
+		runCalled = true
 		go func() {
 			defer close(runDone)
 			runErr = router.Run(ctx)
@@ -554,20 +577,21 @@ func runLifecycle(res *vlib.Result, w *world, pq message.HandlerMiddleware, cfg 
 					return
 				}
 				lp.Restarted = append(lp.Restarted, i)
+				live[i], stopped[i] = false, true
 			}
-			if !runHandlers() {
+			if !refuse(0, phRetry) || !runHandlers(0) {
 				return
 			}
 			if len(lp.Restarted) > 0 {
 				for _, i := range lp.Restarted {
 					register(i, true)
 				}
-				if !runHandlers() {
+				if !runHandlers(0) {
 					return
 				}
 			}
 		}
-		if !awaitStarted(0) || !deliverAt(0) || !stopAfter(0) {
+		if !awaitStarted(0) || !refuse(0, phStarted) || !deliverAt(0) || !refuse(0, phDelivered) || !stopAfter(0) || !refuse(0, phStopped) {
 			return
 		}
 		for wave := 1; wave <= lp.Waves; wave++ {
@@ -576,7 +600,8 @@ func runLifecycle(res *vlib.Result, w *world, pq message.HandlerMiddleware, cfg 
 					register(i, false)
 				}
 			}
-			if !runHandlers() || !awaitStarted(wave) || !deliverAt(wave) || !stopAfter(wave) {
+			if !refuse(wave, phRegistered) || !runHandlers(wave) || !awaitStarted(wave) || !refuse(wave, phStarted) ||
+				!deliverAt(wave) || !refuse(wave, phDelivered) || !stopAfter(wave) || !refuse(wave, phStopped) {
 				return
 			}
 		}
@@ -606,6 +631,9 @@ func runLifecycle(res *vlib.Result, w *world, pq message.HandlerMiddleware, cfg 
 func countLifecycle(res *vlib.Result, w *world, cfg *config) {
 	lp := cfg.Life
 	res.Count("life_cases", 1)
+	if len(lp.Refused) > 0 {
+		countRefused(res, w, cfg)
+	}
 	res.Count("life_late_waves", lp.Waves)
 	res.Count("life_failed_startup_attempts", lp.FailedAttempts)
 	res.Count("life_decorator_faults_fired", lp.DecFaultsFired)
@@ -684,5 +712,6 @@ func lifeSig(cfg *config) []any {
 		lh := h.Life
 		parts = append(parts, lh.Wave, lh.NameKind, lh.OwnPQ, lh.Tracer, lh.SubFaults, lh.StopHow, lh.StopAfter, lh.ReOf)
 	}
+	parts = append(parts, refusedSig(cfg)...)
 	return parts
 }
